@@ -118,6 +118,22 @@ Definition collect_step (m : smap) (idx : index) (gs : list group) (ps : key * s
 Definition collect (m : smap) (idx : index) : list group :=
   fold_left (collect_step m idx) m [].
 
+(* collect(push=True) skips a prefix whose resolved remote is attached read_only
+   (`if not data or (push and data.read_only): continue`); a fetch does not look at the flag *)
+Definition collect_step_ro (ro : list sid) (m : smap) (idx : index) (gs : list group) (ps : key * sinfo)
+  : list group :=
+  match getitem m (fst ps) with
+  | None => gs
+  | Some si =>
+      match si_remote si with
+      | None => gs
+      | Some d => if existsb (N.eqb d) ro then gs
+                  else add_group d (si_cache si) (under (fst ps) (entries m idx)) gs
+      end
+  end.
+Definition collect_ro (ro : list sid) (m : smap) (idx : index) : list group :=
+  fold_left (collect_step_ro ro m idx) m [].
+
 (* ---- the stores ---- *)
 Definition stores := list (sid * store).     (* first binding wins *)
 Fixpoint sget (w : stores) (s : sid) : store :=
@@ -254,6 +270,12 @@ Fixpoint run_groups_ix (e : env) (k : rkind) (gs : list group) (w : stores) (x :
 Definition run_round_ix (e : env) (k : rkind) (m : smap) (idx : index) (w : stores) (x : ixmap)
   : pf_out * ixmap :=
   run_groups_ix e k (collect m idx) w x 0 0.
+(* with remotes attached read_only: they are left out of a push, not of a fetch *)
+Definition groups_ro (k : rkind) (ro : list sid) (m : smap) (idx : index) : list group :=
+  match k with RPush => collect_ro ro m idx | RFetch => collect m idx end.
+Definition run_round_ro (e : env) (k : rkind) (ro : list sid) (m : smap) (idx : index) (w : stores) (x : ixmap)
+  : pf_out * ixmap :=
+  run_groups_ix e k (groups_ro k ro m idx) w x 0 0.
 
 (* ---- index checkout from the cache the mapping designates for each key ---- *)
 Definition cache_of (m : smap) (k : key) : option sid :=
@@ -279,7 +301,8 @@ Definition designated_cache (m : smap) (idx : index) (c : sid) : list oid :=
 Definition contents (s : store) : list oid := dedup (map fst s).
 
 (* ---- correspondence: scenarios and encoders ---- *)
-Record round := { r_kind : rkind; r_map : smap; r_fails : list (sid * oid) }.
+Record round := { r_kind : rkind; r_map : smap; r_fails : list (sid * oid);
+                  r_ro : list sid }.          (* remotes attached read_only in this round *)
 Record scen := {
   s_idx : index;
   s_parse : list (bytes * list oid);
@@ -314,9 +337,9 @@ Fixpoint run_rounds (sc : scen) (rs : list round) (w : stores) (x : ixmap) : lis
   match rs with
   | [] => []
   | r :: rest =>
-      let ox := run_round_ix (mk_env sc r) (r_kind r) (r_map r) (s_idx sc) w x in
+      let ox := run_round_ro (mk_env sc r) (r_kind r) (r_ro r) (r_map r) (s_idx sc) w x in
       let out := fst ox in
-      VL [ VL (map enc_group (collect (r_map r) (s_idx sc)));
+      VL [ VL (map enc_group (groups_ro (r_kind r) (r_ro r) (r_map r) (s_idx sc)));
            enc_option VN (p_err out); VN (p_moved out); VN (p_failed out);
            enc_world (s_sids sc) (p_w out);
            enc_ixmap (s_ix sc) (snd ox) ]
@@ -326,7 +349,7 @@ Fixpoint final_stores (sc : scen) (rs : list round) (w : stores) (x : ixmap) : s
   match rs with
   | [] => w
   | r :: rest =>
-      let ox := run_round_ix (mk_env sc r) (r_kind r) (r_map r) (s_idx sc) w x in
+      let ox := run_round_ro (mk_env sc r) (r_kind r) (r_ro r) (r_map r) (s_idx sc) w x in
       final_stores sc rest (p_w (fst ox)) (snd ox)
   end.
 Definition ix0 (sc : scen) : ixmap := map (fun s => (s, [])) (s_ix sc).
